@@ -95,6 +95,7 @@ inductive MFld | data | size | pages | maxPages | shared
 inductive MExpr
   | lit (n : Nat) | reg (r : Nat)
   | add (a b : MExpr) | sub (a b : MExpr) | mul (a b : MExpr)
+  | wmul (a b : MExpr)      -- `(size_t)a * b`: 64-bit product, no U32 wrap
   | eq (a b : MExpr) | ne (a b : MExpr) | lt (a b : MExpr) | le (a b : MExpr) | gt (a b : MExpr) | ge (a b : MExpr)
   | lor (a b : MExpr) | land (a b : MExpr) | lnot (a : MExpr) | cond (c a b : MExpr)
   deriving DecidableEq, Repr
@@ -121,6 +122,7 @@ def MExpr.eval (ρ : Nat → Nat) : MExpr → Nat
   | .add a b => (a.eval ρ + b.eval ρ) % 4294967296
   | .sub a b => (a.eval ρ + 4294967296 - b.eval ρ % 4294967296) % 4294967296
   | .mul a b => (a.eval ρ * b.eval ρ) % 4294967296
+  | .wmul a b => a.eval ρ * b.eval ρ
   | .eq a b => b2n (a.eval ρ == b.eval ρ)
   | .ne a b => b2n (a.eval ρ != b.eval ρ)
   | .lt a b => b2n (decide (a.eval ρ < b.eval ρ))
